@@ -162,12 +162,7 @@ pub fn roundtrip(kind: &str, s: &str) -> Result<(String, String), String> {
     match kind {
         "descriptor" => rt!(Descriptor<DescriptorPublicKey>),
         "pubkey" => rt!(DescriptorPublicKey),
-        "secretkey" => {
-            let a = DescriptorSecretKey::from_str(s).map_err(|e| format!("parse: {}", e))?;
-            let sa = a.to_string();
-            let b = DescriptorSecretKey::from_str(&sa).map_err(|e| format!("re-parse of own output failed: {} [{}]", e, sa))?;
-            Ok((sa, b.to_string()))
-        }
+        "secretkey" => rt!(DescriptorSecretKey),
         "ms-segwit" => {
             let a = Miniscript::<DescriptorPublicKey, miniscript::Segwitv0>::from_str_insane(s).map_err(|e| format!("parse: {}", e))?;
             let sa = a.to_string();
@@ -193,6 +188,9 @@ pub fn roundtrip(kind: &str, s: &str) -> Result<(String, String), String> {
             let a = WalletPolicy::from_str(s).map_err(|e| format!("parse: {:?}", e))?;
             let sa = a.to_string();
             let b = WalletPolicy::from_str(&sa).map_err(|e| format!("re-parse of own output failed: {:?} [{}]", e, sa))?;
+            if a != b {
+                return Err(format!("parse(print(x)) != x [{}]", sa));
+            }
             Ok((sa, b.to_string()))
         }
         _ => Err("unknown kind".into()),
@@ -357,6 +355,47 @@ pub fn storage_run(seed: u64, run: u64, doubles: u64, res: &mut StorageResult) {
                     res.violation.get_or_insert(("checksum-4sub".into(), format!("3-4 in-group substitutions are not detected: {} -> {}", with, s)));
                     return;
                 }
+            }
+        }
+    }
+    // object-first round trips: the object is built by the library (lift / translation), printed, parsed
+    for (kind, text) in &objs {
+        if *kind != "concrete" {
+            continue;
+        }
+        let r = catch_unwind(AssertUnwindSafe(|| -> Result<(), String> {
+            let c = Concrete::<String>::from_str(text).map_err(|_| String::new())?;
+            let sem = c.lift().map_err(|_| String::new())?;
+            for obj in [sem.clone(), sem.clone().normalized(), sem.clone().normalized().sorted()] {
+                let printed = obj.to_string();
+                match Semantic::<String>::from_str(&printed) {
+                    Ok(back) => {
+                        if back != obj {
+                            return Err(format!("semantic policy object != parse(print(object)): printed {} re-printed {}", printed, back));
+                        }
+                    }
+                    Err(e) => return Err(format!("semantic policy does not parse its own output {}: {}", printed, e)),
+                }
+            }
+            // concrete object: parse(print(c)) == c
+            let printed = c.to_string();
+            match Concrete::<String>::from_str(&printed) {
+                Ok(back) if back == c => Ok(()),
+                Ok(back) => Err(format!("concrete policy object != parse(print(object)): {} vs {}", printed, back)),
+                Err(e) => Err(format!("concrete policy does not parse its own output {}: {}", printed, e)),
+            }
+        }));
+        res.roundtrips += 1;
+        match r {
+            Ok(Ok(())) => {}
+            Ok(Err(e)) if e.is_empty() => {}
+            Ok(Err(e)) => {
+                res.violation.get_or_insert(("object-roundtrip:policy".into(), e));
+                return;
+            }
+            Err(_) => {
+                res.violation.get_or_insert(("roundtrip-panic".into(), format!("policy printer/parser panicked on {}", text)));
+                return;
             }
         }
     }
@@ -630,10 +669,17 @@ pub fn wire_case(ws: &WireSeeds, r: &mut Rng) -> WireCase {
             // damage is not stopped at the checksum gate and reaches the parsers behind it
             if kind == "descriptor" && r.chance(1, 2) {
                 if let Ok(s) = std::str::from_utf8(&data) {
-                    let body = s.split('#').next().unwrap_or("");
-                    let mut eng = miniscript::descriptor::checksum::Engine::new();
-                    if eng.input(body).is_ok() {
-                        data = format!("{}#{}", body, eng.checksum()).into_bytes();
+                    let body = s.split('#').next().unwrap_or("").to_string();
+                    // the checksum engine is library code: if it panics here the same body is handed to
+                    // wire_exec, which calls it again under the panic guard and reports it
+                    let r = catch_unwind(AssertUnwindSafe(|| {
+                        let mut eng = miniscript::descriptor::checksum::Engine::new();
+                        eng.input(&body).ok().map(|_| eng.checksum())
+                    }));
+                    match r {
+                        Ok(Some(c)) => data = format!("{}#{}", body, c).into_bytes(),
+                        Ok(None) => {}
+                        Err(_) => data = body.into_bytes(),
                     }
                 }
             }
@@ -747,6 +793,9 @@ pub fn wire_exec(c: &WireCase) -> u32 {
                     }
                 }
                 let _ = Descriptor::<String>::from_str(s);
+                let _ = miniscript::descriptor::checksum::verify_checksum(s);
+                let mut eng = miniscript::descriptor::checksum::Engine::new();
+                let _ = eng.input(s.split('#').next().unwrap_or(""));
                 let _ = Descriptor::parse_descriptor(&bitcoin::secp256k1::Secp256k1::signing_only(), s);
             }
         }
